@@ -443,7 +443,11 @@ func checkC16(c *c16Case, rec *ev.Recorder) (fl *failure, harnessErr string) {
 		if rp.err != nil || rp.s == nil {
 			return failf("ForType(*%s) fails (%v) although ForType(%s) succeeds", c.GoType, rp.err, c.GoType)
 		}
-		if os.Getenv("JSONSCHEMAGODEBUG") != "typeschemasnull=1" || !ov[typ] {
+		base := typ
+		for base.Kind() == reflect.Pointer {
+			base = base.Elem()
+		}
+		if os.Getenv("JSONSCHEMAGODEBUG") != "typeschemasnull=1" || !(ov[base] || tgen.IsStdMarshaler(base)) {
 			want := r1.s.CloneSchemas()
 			hasNull := false
 			for _, t := range typesOf(want) {
